@@ -10,14 +10,18 @@ evaluated on the IMPLEMENTATION's text: the helper names a file uses vs the ones
 `mapped_builtin_part`: the same programs under configurations whose `type_mappings` keys are built-in / special Rust types
 (primitives, `()`, `OffsetDateTime`, containers spelled the way the type prints, user types), alone and in tables shared by
 all six languages, the trigger type occurring only in a mapped spelling / only elsewhere / in both.
+
+`helper_file_names_part`: the binary in folder mode (`-d`), where the *names of crates* and the *files already in the output
+folder* meet the names of the helper files a back end writes next to the modules (found by probing every back end; today Swift's
+`Codable.swift`).  The per-language oracle, applied to the files the run leaves on disk.
 """
-import ast, builtins, itertools, multiprocessing, random, re
+import ast, builtins, itertools, multiprocessing, os, random, re
 from common import *
 from syn_gen import *
 from gen import Gen
 import l2
 
-NEEDS = ("runner",)
+NEEDS = ("runner", "cli")
 TRUSTED = [
     "binding semantics (Lean): C12L.Swift.unitIn / fieldUnit / itemUnit, C12L.Scala.unsignedIn / formatted / definesUnsigned, "
     "C12L.Go.timeIn / usesJson, C12L.TypeScript.fieldNeeds / clauseFor, C12L.Kotlin.declUses / provided, "
@@ -25,6 +29,9 @@ TRUSTED = [
     "(which helper names a rendered declaration mentions, and what the header / footer of a file defines)",
     "the python extractors of tools/c12.py (one per language: names used vs defined/imported in the generated text; "
     "Python through CPython's ast with a module/function scope analysis)",
+    "helper_file_names_part: tools/c12.py `module_file` / `pascal_ascii` / `crate_of` (which file of the output folder is the module "
+    "of which crate - mirror of cli/src/parse.rs output_file_name and CrateName::find_crate_name on ASCII names); the files a run "
+    "leaves in build/scratch are read back as UTF-8 with replacement",
 ]
 
 # ----------------------------------------------------------------------------- the input space
@@ -635,6 +642,8 @@ def evaluate(check, cases, label):
 def replay(check, case):
     """./check C12 --replay FILE: the stored request against the current tree (implementation, oracle)"""
     c = case["case"]
+    if c.get("kind") == "helper-file-names":
+        return replay_folder(c)
     ra = l2.norm(runner([c["request"]])[0])
     print("source:\n" + c["source"])
     if "ok" not in ra:
@@ -647,6 +656,28 @@ def replay(check, case):
             names = ORACLES[c["lang"]](text, ra["ok"])
             print("undefined helper names:", sorted(names))
             bad |= bool(names)
+    return 1 if bad else 0
+
+
+def replay_folder(c):
+    """a case of `helper_file_names_part`: the stored crates, pre-existing object and runs against the current binary"""
+    build_cli()
+    lang = c["lang"]
+    helpers = dict.fromkeys(KNOWN_HELPER_FILES.get(lang, []))
+    helpers.update(probe_helper_files(lang))
+    for path, text in c["sources"].items():
+        print("---- ws/%s\n%s" % (path, text))
+    print("before the first run, `%s` in the output folder: %s" % (c["pre_existing"].get("file"), c["pre_existing"]["state"]))
+    bad = 0
+    for n, r in enumerate(folder_run(lang, c["sources"], c["pre_existing"], c["runs"], c["output_folder_named"])):
+        print("==== run %d: (cd %s && %s)   typeshare.toml: %r   exit %s" % (n + 1, r["cwd"], r["command"], r["toml"], r["rc"]))
+        shared = {"<post>/" + hf: r["folder"].get(hf) or "" for hf in helpers}
+        for fn, text in r["folder"].items():
+            print("---- [%s]\n%s" % (fn, text))
+            if text is not None and fn.endswith("." + EXT[lang]) and r["rc"] == 0:
+                names = ORACLES[lang](text, shared)
+                print("undefined helper names:", sorted(names))
+                bad |= bool(names)
     return 1 if bad else 0
 
 
@@ -828,6 +859,438 @@ def mapped_builtin_part(check, lang, seed, thorough):
         evaluate(check, cases[i:i + 20000], "mapped-builtin")
 
 
+# ----------------------------------------------------------------------------- helper files on disk (the binary, folder mode)
+
+# helper files the back ends are known to write next to the modules of a folder run; `probe_helper_files` adds whatever a back end
+# is *seen* to write besides the modules of the crates (so a back end that gains such a file is covered without touching this table)
+KNOWN_HELPER_FILES = {"swift": ["Codable.swift"]}
+# the settings `lang_args` passes on the command line, as the in-process back ends / the model take them
+DISK_CFG = {"typescript": {}, "kotlin": {"package": "com.example"}, "swift": {}, "scala": {"package": "com.example"},
+            "go": {"package": "proto"}, "python": {}}
+# for back ends without a helper file: crate names made of the vocabulary the back end itself brings into a module
+HELPER_WORDS = {"typescript": ["ReviverFunc", "Date"], "kotlin": ["Serializable", "kotlinx"], "swift": ["CodableVoid", "Foundation"],
+                "scala": ["UByte", "package"], "go": ["time", "json"], "python": ["typing", "datetime", "pydantic", "enum"]}
+HELPER_MENTION = {"typescript": "ReviverFunc", "kotlin": "Serializable", "swift": "CodableVoid", "scala": "UByte", "go": "time.Time",
+                  "python": "BaseModel"}
+# programs that make a back end use a helper name (what each language accepts in folder mode)
+DISK_TRIGGERS = {
+    "swift": [[("field", (), "()")], [("payload", ("Vec",), "()")], [("alias", ("Option",), "()")], [("variant_field", ("Map",), "()")],
+              [("field_default", ("Vec", "Option"), "()")], [("field", (), "u32"), ("payload", (), "()")]],
+    "scala": [[("field", (), "u8")], [("payload", ("Vec",), "u32")], [("alias", ("Option",), "U53")], [("variant_field", ("Map",), "u16")]],
+    "go": [[("field", (), "OffsetDateTime")], [("variant_field", ("Option",), "OffsetDateTime")], [("field", ("Vec",), "u8")]],
+    "typescript": [[("field", (), "OffsetDateTime")], [("field_default", (), "OffsetDateTime")], [("field", ("Vec",), "u8")]],
+    "kotlin": [[("field", (), "u8")], [("payload", ("Vec",), "()")], [("alias", ("Option",), "String")]],
+    "python": [[("field", (), "OffsetDateTime")], [("alias", ("Vec",), "T")], [("field_default", (), "OffsetDateTime")],
+               [("payload", ("Map",), "u32")], [("variant_field", ("Option",), "T")]],
+}
+SWIFT_SETTINGS = [{}, {"codablevoid_constraints": ["Equatable"]},
+                  {"codablevoid_constraints": ["Sendable", "Hashable"], "default_decorators": ["Sendable"]},
+                  {"default_decorators": ["Equatable", "Hashable"]}]
+HAND_WRITTEN = {
+    "swift": "import Foundation\n\n// written by hand, not generated\npublic extension JSONDecoder {\n    static let shared = JSONDecoder()\n}\n",
+    "typescript": "// written by hand, not generated\nexport const VERSION = 1;\n",
+    "kotlin": "package com.example\n\n// written by hand, not generated\nconst val VERSION = 1\n",
+    "scala": "package com.example\n\n// written by hand, not generated\nobject Version { val v = 1 }\n",
+    "go": "package proto\n\n// written by hand, not generated\nconst Version = 1\n",
+    "python": "# written by hand, not generated\nVERSION = 1\n",
+}
+OUTDIR_AS = ["absolute", "relative", "dot-slash-trailing", "dotdot", "nested-new"]
+
+
+def pascal_ascii(name):
+    """`RenameExt::to_pascal_case` on an ASCII name"""
+    lower = not any(c.islower() for c in name)
+    out, cap = "", True
+    for ch in name:
+        if ch == "_":
+            cap = True
+        elif cap:
+            out, cap = out + ch.upper(), False
+        else:
+            out += ch.lower() if lower else ch
+    return out
+
+
+def crate_of(dirname):
+    """`CrateName::find_crate_name`: the directory above `src`, dashes replaced"""
+    return dirname.replace("-", "_")
+
+
+def module_file(lang, crate):
+    """cli/src/parse.rs `output_file_name`"""
+    return "%s.%s" % (pascal_ascii(crate) if lang == "swift" else crate, EXT[lang])
+
+
+def neutral_items(i):
+    return [{"kind": "struct", "attrs": [TS_ATTR], "ident": "Plain%d" % i, "generics": [],
+             "fields": ("named", [field([], "name", t_path("String"))])}]
+
+
+def disk_files(lang, crates):
+    """crates: [(directory name, entries or None for a crate that needs no helper)] -> the `files` of `l2.requests`"""
+    out = []
+    for i, (d, entries) in enumerate(crates):
+        items = make_items(entries, tag="C%d" % i, lang=lang)[0] if entries else neutral_items(i)
+        out.append({"crate": crate_of(d), "file_name": module_file(lang, crate_of(d)), "path": d + "/src/lib.rs",
+                    "file": {"attrs": [], "items": items}, "dir": d})
+    return out
+
+
+def settings_toml(lang, settings):
+    if not settings:
+        return None
+    return "[%s]\n%s" % (lang, "".join("%s = [%s]\n" % (k, ", ".join(json.dumps(x) for x in v)) for k, v in sorted(settings.items())))
+
+
+def read_folder(path):
+    """{file name: text, or None for a directory / an unreadable object} of the output folder"""
+    out = {}
+    if not os.path.isdir(path):
+        return out
+    for fn in sorted(os.listdir(path)):
+        p = os.path.join(path, fn)
+        try:
+            out[fn] = None if os.path.isdir(p) else open(p, "rb").read().decode("utf-8", "replace")
+        except OSError:
+            out[fn] = None
+    return out
+
+
+def place_pre(sc, folder, pre):
+    """put the pre-existing object of a case into the output folder.  `pre`: dict(state, file, kind, content)"""
+    kind = pre["kind"]
+    if kind == "no-folder":
+        return
+    os.makedirs(folder, exist_ok=True)
+    target = os.path.join(folder, pre["file"])
+    if kind == "empty-folder":
+        return
+    if kind == "text":
+        with open(target, "w", encoding="utf-8", newline="") as f:
+            f.write(pre["content"])
+    elif kind == "bytes":
+        with open(target, "wb") as f:
+            f.write(bytes(pre["content"]))
+    elif kind == "directory":
+        os.makedirs(target)
+    elif kind == "symlink":
+        elsewhere = sc.write("elsewhere/" + pre["file"], pre["content"])
+        os.symlink(elsewhere, target)
+    elif kind == "dangling":
+        os.makedirs(sc.path("elsewhere"), exist_ok=True)
+        os.symlink(sc.path("elsewhere/not-there-" + pre["file"]), target)
+    else:
+        raise ValueError(kind)
+
+
+def folder_run(lang, sources, pre, runs, outdir_as):
+    """The binary in folder mode.  `sources`: {directory/src/lib.rs: text}; `pre`: what is in the output folder before the first
+    run; `runs`: one settings dict per run of the same command into the same folder; `outdir_as`: how the folder is named on the
+    command line.  Returns one dict(rc, err, folder, command, cwd, toml) per run."""
+    out = []
+    with Scratch() as sc:
+        for rel, text in sources.items():
+            sc.write("ws/" + rel, text)
+        folder = sc.path("gen/swift/out") if outdir_as == "nested-new" else sc.path("out")
+        place_pre(sc, folder, pre)
+        arg, cwd = {"absolute": (folder, sc.path("ws")), "relative": ("out", sc.dir), "dot-slash-trailing": ("./out/", sc.dir),
+                    "dotdot": ("../out", sc.path("ws")), "nested-new": (folder, sc.dir)}[outdir_as]
+        for settings in runs:
+            toml = settings_toml(lang, settings)
+            cfg_args = []
+            if toml is not None:
+                cfg_args = ["-c", sc.write("settings/typeshare.toml", toml)]
+            args = ["--lang", lang, "-d", arg] + cfg_args + lang_args(lang) + [sc.path("ws")]
+            r = run_cli(args, cwd=cwd)
+            out.append(dict(rc=r["rc"], err=(r["err"] or "")[-600:], folder=read_folder(folder), toml=toml,
+                            command="typeshare " + " ".join(a.replace(sc.dir, "$T") for a in args), cwd=cwd.replace(sc.dir, "$T")))
+    return out
+
+
+_PROBED = {}
+_NOTED = []
+
+
+def probe_helper_files(lang):
+    """which files does the back end write into the output folder besides the modules of the crates?  Probed with a workspace
+    whose two crates (neutral names) use every helper of DISK_TRIGGERS; returns {file name: text} (plus the known table)."""
+    if lang not in _PROBED:
+        crates = [("alpha", [e for es in DISK_TRIGGERS[lang] for e in es if e[2] != "T"]), ("beta", DISK_TRIGGERS[lang][0])]
+        files = disk_files(lang, crates)
+        srcs = {f["path"]: render_file(f["file"]) for f in files}
+        found = {}
+        for settings in ([{}] if lang != "swift" else SWIFT_SETTINGS[:2]):
+            r = folder_run(lang, srcs, {"kind": "no-folder", "state": "no output folder", "file": ""}, [settings], "absolute")[0]
+            for fn, text in r["folder"].items():
+                if fn not in {f["file_name"] for f in files}:
+                    found.setdefault(fn, text)
+        for fn in KNOWN_HELPER_FILES.get(lang, []):
+            found.setdefault(fn, None)
+        _PROBED[lang] = found
+    return _PROBED[lang]
+
+
+def colliding_dirs(stem):
+    """directory names whose crate's Swift module is `<stem>.swift` (the file name is the pascal-cased crate name)"""
+    low = stem[0].lower() + stem[1:]
+    return [low, stem, stem.upper(), "_" + low, low + "_", low + "-"]
+
+
+def near_dirs(stem):
+    low = stem[0].lower() + stem[1:]
+    return [low + "s", "my_" + low, low[:3] + "_" + low[3:], low + "2", low + "-void", "x" + low]
+
+
+def pre_states(lang, target, helper_text):
+    """the objects a run may find at the path of a helper file (or, for a back end without one, of a module)"""
+    hand = HAND_WRITTEN[lang]
+    cm = "#" if lang == "python" else "//"
+    ref = helper_text if helper_text else hand * 2
+    st = [dict(state="no output folder", kind="no-folder"), dict(state="an empty output folder", kind="empty-folder"),
+          dict(state="an empty file", kind="text", content=""),
+          dict(state="a hand-written file", kind="text", content=hand),
+          dict(state="a hand-written file that mentions the helper in a comment", kind="text",
+               content=hand + "%s the struct %s itself is generated by typeshare, see the modules\n" % (cm, HELPER_MENTION[lang])),
+          dict(state="a hand-written file defining a type whose name begins like the helper's", kind="text",
+               content=hand + ("public struct CodableVoidBox: Codable {}\n" if lang == "swift" else "%s %sBox\n" % (cm, HELPER_MENTION[lang]))),
+          dict(state="the first half of what an earlier run wrote there", kind="text", content=ref[:len(ref) // 2]),
+          dict(state="bytes that are not UTF-8", kind="bytes", content=list(b"\xff\xfe\x00generated? \xc3\x28\n")),
+          dict(state="a symbolic link to a hand-written file outside the folder", kind="symlink", content=hand),
+          dict(state="a dangling symbolic link", kind="dangling"),
+          dict(state="a directory", kind="directory")]
+    return [dict(s, file=target) for s in st]
+
+
+def helper_file_cases(lang, seed, thorough):
+    """the cases of `helper_file_names_part` for one language"""
+    rng = random.Random("C12 helper file names %s %d" % (lang, seed))
+    helpers = probe_helper_files(lang)
+    triggers = DISK_TRIGGERS[lang]
+    all_settings = SWIFT_SETTINGS if lang == "swift" else [{}]
+    if helpers:
+        stems = [(hf, hf.rsplit(".", 1)[0]) for hf in sorted(helpers)]
+    else:
+        stems = [(None, w) for w in (HELPER_WORDS[lang] if thorough else rng.sample(HELPER_WORDS[lang], 1))]
+    cases = []
+
+    def case(crates, pre, runs, outdir_as, target, why):
+        if pre["kind"] != "no-folder" and outdir_as == "nested-new":
+            outdir_as = "absolute"
+        cases.append(dict(lang=lang, crates=crates, pre=pre, runs=runs, outdir_as=outdir_as, target=target, why=why))
+
+    def layouts(d, others):
+        """the crate with the critical name `d` (None: no such crate) among others: who uses the helper"""
+        t = lambda: rng.choice(triggers)
+        o1, o2 = others
+        if d is None:
+            return [("no crate of that name", [(o1, t()), (o2, None)])]
+        return [("the helper is used by another crate", [(d, None), (o1, t())]),
+                ("the helper is used by the crate of that name", [(d, t()), (o1, None)]),
+                ("the helper is used by both", [(d, t()), (o1, t())]),
+                ("the crate of that name is the only one", [(d, t())]),
+                ("three crates, the helper is used by the two others", [(o1, t()), (d, None), (o2, t())]),
+                ("no crate uses a helper", [(d, None), (o1, None)])]
+
+    fresh = dict(state="no output folder", kind="no-folder", file="")
+    for hf, stem in stems:
+        target = hf or module_file(lang, crate_of(colliding_dirs(stem)[0]))
+        colliders = [d for d in colliding_dirs(stem) if hf and module_file(lang, crate_of(d)) == hf] or [colliding_dirs(stem)[0]]
+        nears = [d for d in colliding_dirs(stem) + near_dirs(stem) if d not in colliders]
+        states = pre_states(lang, target, helpers.get(hf) if hf else None)
+        # (a) every spelling of the critical crate name x who uses the helper, into a fresh folder, the command run twice
+        for d in colliders + (nears if thorough else nears[:3]):
+            for n, (why, crates) in enumerate(layouts(d, rng.choice([("app", "zeta"), ("zeta", "Alpha"), ("Alpha", "app")]))):
+                if d in colliders or n < 2 or thorough:
+                    s = rng.choice(all_settings)
+                    case(crates, fresh, [s, s], OUTDIR_AS[len(cases) % len(OUTDIR_AS)], target, why)
+        # two crates whose names differ in spelling only
+        if len(colliders) > 1:
+            for a, b in ([(colliders[0], colliders[1]), (colliders[1], colliders[4])] if not thorough else itertools.combinations(colliders, 2)):
+                if crate_of(a) != crate_of(b):
+                    case([(a, None), (b, rng.choice(triggers))], fresh, [{}, {}], "absolute", target, "two crates whose names differ in spelling only")
+        # (b) every object at the critical path x (a crate of that name uses / does not use the helper, no crate of that name)
+        for pre in states[1:]:
+            lay = layouts(colliders[0], ("app", "zeta"))[:2] + layouts(None, ("app", "zeta"))
+            for why, crates in (lay if hf or thorough else lay[1:]):
+                s = rng.choice(all_settings)
+                case(crates, pre, [s, s], rng.choice(OUTDIR_AS[:4]), target, why)
+        # (c) what an earlier run under other settings left: every ordered pair of settings, then the second one again
+        for s1, s2 in itertools.permutations(all_settings, 2):
+            for why, crates in (layouts(colliders[0], ("app", "zeta"))[:3] + layouts(None, ("app", "zeta"))):
+                if thorough or rng.random() < 0.5:
+                    case(crates, fresh if rng.random() < 0.7 else rng.choice(states[1:9]), [s1, s2, s2], rng.choice(OUTDIR_AS[:4]), target, why)
+        # (d) at random: name x layout x object x two or three runs under settings drawn independently
+        for _ in range(400 if thorough else (40 if hf else 8)):
+            d = rng.choice(colliders * 3 + nears + [None])
+            why, crates = rng.choice(layouts(d, rng.choice([("app", "zeta"), ("zeta", "Alpha"), ("Alpha", "app"), ("b-c", "B")])))
+            case(crates, rng.choice(states), [rng.choice(all_settings) for _ in range(rng.choice([1, 2, 2, 3]))], rng.choice(OUTDIR_AS),
+                 target, why)
+    return cases, helpers
+
+
+def helper_file_names_part(check, seed, thorough, langs=None):
+    """Dimension: the *names* that meet in the output folder of a folder run (`typeshare -d`), at the level of the binary - the
+    other parts of this file run the back ends in-process, where no output folder exists.  A back end may write helper files next to
+    the modules of the crates (every back end is probed for them with a workspace that uses all its helpers; today only Swift's
+    `Codable.swift`, which holds `CodableVoid`).  Explored: crate directory names that give the helper file's own name in every
+    spelling the file-name rule folds together (`codable` `Codable` `CODABLE` `_codable` `codable_` `codable-`), near misses
+    (`codables` `my_codable` `cod_able` ...), two such crates at once; who uses the helper (another crate, that crate, both, that
+    crate alone, two others of three); what already sits at the helper file's path (nothing, no folder, an empty file, a
+    hand-written file - plain / mentioning the helper in a comment / defining a type named like it -, half of an earlier helper
+    file, non-UTF-8 bytes, a symbolic link to a file elsewhere, a dangling link, a directory); what an earlier run of the same
+    command under the same or other settings (`codablevoid_constraints`, `default_decorators`) left there - every case runs the
+    command two or three times into the same folder; how the folder is named on the command line (absolute, relative, `./out/`,
+    `../out`, a nested path that does not exist).  For the five back ends without a helper file the crate names and pre-existing
+    files are made of the back end's own vocabulary (`typing`, `datetime`, `time`, `json`, ...).
+    Demand: exactly C12's, on the files the run leaves on disk - after every run that exits 0, each module of a crate of the run
+    (the per-language oracle of this file, unchanged) uses only helper names defined / imported in that module or defined in the
+    shared helper file in the folder.  A run that fails (a directory at the helper's path) is counted, nothing is demanded of it.
+    Which of the two contents ends up on disk when a crate's module and the helper file share a path is recorded, not demanded.
+    Kept as well: model == in-process back end on the same crates (L2), and the files on disk == the in-process output
+    (modules other than one at a helper's path; the helper file) - differences are reported without a failing input."""
+    for lang in (langs or LANGS):
+        cases, helpers = helper_file_cases(lang, seed, thorough)
+        check.count("%s: helper files seen besides the modules: %s" % (lang, sorted(helpers) or "none"))
+        g = Gen(check.rng)
+        # the in-process answers (model and back end), one per (crates, settings of a run)
+        reqs, index = [], {}
+        for c in cases:
+            c["files"] = disk_files(lang, c["crates"])
+            for s in c["runs"]:
+                cfg = dict(DISK_CFG[lang], version_header=True, **s)
+                key = json.dumps([c["crates"], cfg], sort_keys=True)
+                if key not in index:
+                    index[key] = len(reqs)
+                    reqs.append(l2.requests(lang, cfg, c["files"], g, True))
+            c["keys"] = [json.dumps([c["crates"], dict(DISK_CFG[lang], version_header=True, **s)], sort_keys=True) for s in c["runs"]]
+        names = set()
+        if lang == "python":
+            for c in cases:
+                for f in c["files"]:
+                    names |= l2.names_of(f["file"])
+        mans = [l2.norm(a) for a in model([r[0] for r in reqs], names=names or None)]
+        rans = [l2.norm(a) for a in runner([r[1] for r in reqs])]
+        failing = 0
+        for c in cases:
+            failing += bool(helper_file_case(check, c, helpers, [(mans[index[k]], rans[index[k]]) for k in c["keys"]]))
+            if failing >= 3:
+                break           # three failing inputs of one language are enough to read; the rest of its cases is not run
+
+
+def helper_file_case(check, c, helpers, answers):
+    lang = c["lang"]
+    files = c["files"]
+    srcs = {f["path"]: render_file(f["file"]) for f in files}
+    crate_files = {}
+    for f in files:
+        crate_files.setdefault(f["file_name"], []).append(f["crate"])
+    idents = {it["ident"] for f in files for it in f["file"]["items"]}
+    pre = c["pre"]
+    at_helper = [fn for fn in crate_files if fn in helpers]
+    klass = ("a crate's module and the helper file share a path" if at_helper else
+             "a crate named after the back end's vocabulary" if not helpers and c["target"] in crate_files else "no crate at the critical path")
+    runs = folder_run(lang, srcs, pre, c["runs"], c["outdir_as"])
+    placed = None
+    if pre["kind"] == "text":
+        placed = pre["content"]
+    elif pre["kind"] == "bytes":
+        placed = bytes(pre["content"]).decode("utf-8", "replace")
+    replay = {"kind": "helper-file-names", "lang": lang, "sources": srcs, "pre_existing": pre, "runs": c["runs"],
+              "output_folder_named": c["outdir_as"], "crate_directories": [d for d, _ in c["crates"]], "layout": c["why"],
+              "commands": [dict(command=r["command"], cwd=r["cwd"], typeshare_toml=r["toml"]) for r in runs]}
+    for n, (r, (ma, ra)) in enumerate(zip(runs, answers)):
+        key = ("helper-file-names", lang, tuple(d for d, _ in c["crates"]), c["why"], pre["state"], json.dumps(c["runs"][:n + 1], sort_keys=True),
+               c["outdir_as"], json.dumps(srcs, sort_keys=True))
+        check.saw(key, nontrivial=True)
+        check.count("%s -d: %s" % (lang, klass))
+        check.count("%s -d: at the critical path before the first run: %s" % (lang, pre["state"]))
+        check.count("%s -d: %s" % (lang, c["why"]))
+        check.count("%s -d: run %d of the same command into one folder" % (lang, n + 1))
+        check.count("%s -d: output folder named %s" % (lang, c["outdir_as"]))
+        if n and c["runs"][n] != c["runs"][n - 1]:
+            check.count("%s -d: run after a run under other settings" % lang)
+        if ma != ra:
+            check.violation("%s: model and in-process back end differ on the crates of a folder run (%s)" % (lang, [d for d, _ in c["crates"]]),
+                            case=replay, impl=ra, model=ma, failing_input=False,
+                            broken="correspondence L2 generate (theorems TsV.C12.*)")
+        if r["rc"] != 0:
+            check.count("%s -d: the run fails (exit %s), at the critical path: %s" % (lang, r["rc"], pre["state"]))
+            if "ok" in ra and pre["kind"] != "directory":
+                check.violation("%s -d exits %s (%s) where the in-process back end generates; `%s` held %s before the first run"
+                                % (lang, r["rc"], r["err"][-200:], c["target"], pre["state"]), case=replay, impl=r, model=ra,
+                                failing_input=False, broken="correspondence L3: the binary in folder mode vs generate_types + post_generation")
+            break
+        if "ok" not in ra:
+            check.count("%s -d: rejected in-process, exit 0" % lang)
+            continue
+        folder = r["folder"]
+        shared = {"<post>/" + hf: folder.get(hf) or "" for hf in helpers}
+        problems = {}
+        for fn in crate_files:
+            text = folder.get(fn)
+            if text is None:
+                continue
+            if n == 0 and fn == pre.get("file") and text == placed and text not in [ra["ok"].get(k) for k in crate_files[fn]]:
+                check.count("%s -d: the pre-existing file at a module's path is left as it was" % lang)
+                continue
+            names_ = ORACLES[lang](text, shared) - idents
+            if names_:
+                problems[fn] = sorted(names_)
+        if problems:
+            held = {hf: (folder.get(hf) if hf in folder else "<no such file>") for hf in helpers}
+            check.violation(
+                "%s -d, run %d of the same command into one folder (crate directories %s - %s; before the first run `%s` was: %s): "
+                "modules on disk use helper names that neither they nor the shared helper file define: %s.  Files in the folder: %s; "
+                "helper file on disk: %s" % (
+                    lang, n + 1, [d for d, _ in c["crates"]], c["why"], c["target"], pre["state"], problems, sorted(folder),
+                    {k: (v if v is None or len(v) < 300 else v[:300] + "...") for k, v in held.items()}),
+                case=dict(replay, failing_run=n + 1, stderr=r["err"]), impl={"folder_after_run": folder, "rc": r["rc"]}, model=ma,
+                failing_input=True)
+            return True
+        # which content ends up on disk where a module and the helper file share a path (recorded)
+        for hf in at_helper:
+            want_helper = ra["ok"].get("<post>/" + hf)
+            mods = [ra["ok"].get(k) for k in crate_files[hf]]
+            got = folder.get(hf)
+            if want_helper is None:
+                who = "the module (no helper needed)" if got in mods else "something else"
+            else:
+                who = "the helper (the crate's module is not in the folder)" if got == want_helper else \
+                    "the module" if got in mods else "something else"
+            check.count("%s -d: module and helper share `%s`; on disk after the run: %s" % (lang, hf, who))
+            if want_helper is not None and got == want_helper:
+                wit = {"lang": lang, "sources": srcs, "command": r["command"], "folder_after_run": folder}
+                if not check.known("swift-helper-file-replaces-module", wit) and not _NOTED:
+                    _NOTED.append(hf)
+                    check.notes.append("%s -d: the helper file `%s` replaces the module of crate `%s` (its definitions are in no file of the "
+                                       "folder): %s" % (lang, hf, crate_files[hf][0], r["command"]))
+        # the files on disk are what the back end writes in-process
+        for fn, crates in crate_files.items():
+            if fn in helpers or len(crates) > 1:
+                continue
+            if folder.get(fn) != ra["ok"].get(crates[0]):
+                check.violation("%s -d: the module `%s` on disk differs from what the back end writes in-process for crate `%s`: %s"
+                                % (lang, fn, crates[0], l2.text_diff(ra["ok"].get(crates[0]) or "", folder.get(fn) or "")), case=replay,
+                                impl={"folder_after_run": folder}, model=ra, failing_input=False,
+                                broken="correspondence L3: the binary in folder mode vs generate_types + post_generation")
+                return
+        for hf in helpers:
+            want = ra["ok"].get("<post>/" + hf)
+            if want is not None and folder.get(hf) != want:
+                check.violation("%s -d: the helper file `%s` on disk differs from what post_generation writes in-process: %s"
+                                % (lang, hf, l2.text_diff(want, folder.get(hf) or "")), case=replay, impl={"folder_after_run": folder},
+                                model=ra, failing_input=False,
+                                broken="correspondence L3: the binary in folder mode vs generate_types + post_generation")
+                return
+
+
+def helper_file_worker(args):
+    thorough, open_ids, seed = args
+    rec = Recorder(open_ids)
+    helper_file_names_part(rec, seed, thorough)
+    return rec.events
+
+
 def worker(args):
     lang, thorough, depth, mdepth, open_ids, seed = args
     rec = Recorder(open_ids)
@@ -849,7 +1312,11 @@ def run(check):
                   "the neutral leaf `String`.  Plus (mapped_builtin_part, seeded by --seed): the same kinds of program under "
                   "type_mappings tables whose keys are built-in / special Rust types and user types - one key for every node of "
                   "the trigger's type tree (chains of <= %d wrappers), and random tables shared by all six languages with the "
-                  "trigger only inside / only outside / inside and outside the mapped types"
+                  "trigger only inside / only outside / inside and outside the mapped types.  Plus (helper_file_names_part, seeded "
+                  "by --seed): the binary in folder mode - crate directory names that give a helper file's name (Swift Codable.swift; "
+                  "every back end is probed for such files) in every spelling and near misses x who uses the helper x what already "
+                  "sits at the helper file's path (nothing / empty / hand-written / truncated / non-UTF-8 / link / directory / the output "
+                  "of earlier runs under the same or other settings) x how the folder is named; oracle on the files on disk"
                   % (LEAVES, PY_ONLY_LEAVES, depth, WRAPPERS, POSITIONS, mdepth, 3 if check.thorough else 2))
     # stored witnesses of the known findings, replayed first
     evaluate(check, [make_case(entries, lang, False, cfg=cfg) for _, lang, entries, cfg in WITNESSES], "witness")
@@ -857,9 +1324,12 @@ def run(check):
         if check.known_open(kid) and kid not in check.known_hit:
             check.notes.append("witness of %s no longer fails" % kid)
     evaluate(check, [make_case(entries, lang, False) for lang, entries in REGRESSIONS], "regression")
-    with multiprocessing.get_context("fork").Pool(len(LANGS)) as pool:
+    with multiprocessing.get_context("fork").Pool(len(LANGS) + 1) as pool:
+        # the binary-level part runs beside the six in-process workers
+        on_disk = pool.apply_async(helper_file_worker, ((check.thorough, sorted(check.open), check.seed),))
         for events in pool.imap(worker, [(lang, check.thorough, depth, mdepth, sorted(check.open), check.seed) for lang in LANGS]):
             replay_events(check, events)
+        replay_events(check, on_disk.get())
     check.exhaustive = True
     check.extra["exhaustive_scope"] = ("%d leaves x %d chains x %d positions x 6 languages (single file; multi-file for chains "
                                        "<= %d)" % (len(LEAVES), sum(1 for _ in chains(depth)), len(POSITIONS), mdepth))
